@@ -1,0 +1,7 @@
+//go:build verif
+
+// Contracts for package log (C09).  Comment-only file.  The library's default logger must never write to the
+// process's standard output: in a stdio server that is the protocol stream (sweepscope in the root package's
+// contract file).
+
+package log
